@@ -7,6 +7,7 @@ import (
 	_ "verif/mc/props/c01"
 	_ "verif/mc/props/c02"
 	_ "verif/mc/props/c03"
+	_ "verif/mc/props/c04"
 	_ "verif/mc/props/c05"
 	_ "verif/mc/props/c06"
 	_ "verif/mc/props/c07"
@@ -16,6 +17,7 @@ import (
 	_ "verif/mc/props/c13"
 	_ "verif/mc/props/c14"
 	_ "verif/mc/props/c15"
+	_ "verif/mc/props/c17"
 	_ "verif/mc/props/c19"
 )
 
